@@ -195,6 +195,8 @@ def cursor_remap(ctx, w, S, rf, lg, rl):
                     continue                                    # a test of the cursor row itself
                 if c[0] == "binop" and c[1] in ("Ne", "Eq") and ("load", ("arg2",)) in (c[2], c[3]):
                     continue                                    # width changed?
+                if c[0] == "binop" and c[1] in ("Lt", "Le", "Gt", "Ge", "Ne", "Eq") and ("load", ("arg3",)) in (c[2], c[3]):
+                    continue                                    # the height comparison written with < / > instead of cmp
                 odd.append((c, v))
             ctx.check(not odd, "Q8", "adjust:%s" % shared.site_key(w, rf, (blk, i)),
                       "%s adjusts the cursor row only when %s: the cursor must follow the text whenever history is pulled into / pushed out of the view, whatever else the branch does" %
